@@ -1050,6 +1050,14 @@ func (p *FunctionalPropertyGenerator) iriMemberDef() jen.Code {
 func (p *FunctionalPropertyGenerator) wrapDeserializeCode(valueExisting, typeExisting jen.Code) *jen.Statement {
 	iriCode := jen.Empty()
 	if !p.hasURIKind() {
+		iriCond := jen.Err().Op("==").Nil().Op("&&").Len(jen.Id("u").Dot("Scheme")).Op(">").Lit(0)
+		if p.hasTextKind() {
+			// This property can hold text, and text such as "Re: hello" has
+			// something net/url takes for a scheme. Only a string that is
+			// an IRI in the form it would be written back in is read as
+			// one; anything else is the text it is.
+			iriCond = iriCond.Op("&&").Id("u").Dot("String").Call().Op("==").Id("s")
+		}
 		iriCode = jen.If(
 			jen.List(
 				jen.Id("s"),
@@ -1064,7 +1072,7 @@ func (p *FunctionalPropertyGenerator) wrapDeserializeCode(valueExisting, typeExi
 			).Op(":=").Qual("net/url", "Parse").Call(jen.Id("s")),
 			jen.Commentf("If error exists, don't error out -- skip this and treat as unknown string ([]byte) at worst"),
 			jen.Commentf("Also, if no scheme exists, don't treat it as a URL -- net/url is greedy"),
-			jen.If(jen.Err().Op("==").Nil().Op("&&").Len(jen.Id("u").Dot("Scheme")).Op(">").Lit(0)).Block(
+			jen.If(iriCond).Block(
 				jen.Id(codegen.This()).Op(":=").Op("&").Id(p.StructName()).Values(
 					jen.Dict{
 						jen.Id(iriMember):   jen.Id("u"),
